@@ -33,6 +33,8 @@ def run(chk, prog, tier):
     PL.gate_rule(chk, prog, roles)
     from checks import C07
     C07.room_predicate(chk, prog, roles)
+    from valib import bytelen as BL
+    BL.usub_rule(chk, prog)
     # termination of the per-line loop: the scanner makes progress on every text, the driver advances by what was consumed
     SC.progress_rule(chk, prog, roles)
     SC.driver_advance_rule(chk, prog, roles)
